@@ -9,7 +9,7 @@ N == @@N@@
 Inputs == SeqsUpTo(Classes, N)
 
 ASSUME ndJsonSerialize("vectors.ndjson",
-         SetToSeq({ SlotRec(sl) : sl \in Slots }) \o SetToSeq({ Vector(k, s) : k \in Kinds, s \in Inputs }))
+         <<ConfigRec>> \o SetToSeq({ SlotRec(sl) : sl \in Slots }) \o SetToSeq({ Vector(k, s) : k \in Kinds, s \in Inputs }))
 
 \* the reference's properties depend on the slot's kind only
 VARIABLES kind, inp
